@@ -64,15 +64,19 @@ func (ex *Exec) rxGroups(h *rxHandle, in []*term.Term) ([]rxGroup, *term.Term) {
 	}
 	var groups []rxGroup
 	idx := map[string]int{}
+	keys := make([]string, len(paths))
+	for i := range paths {
+		keys[i] = capsKey(paths[i].Caps)
+	}
 	for i := range paths {
 		if conds[i].IsFalse() {
 			continue
 		}
 		// earlier paths with other captures that can overlap must not match
 		sel := conds[i]
-		k := capsKey(paths[i].Caps)
+		k := keys[i]
 		for j := 0; j < i; j++ {
-			if conds[j].IsFalse() || capsKey(paths[j].Caps) == k || rx.Disjoint(&paths[i], &paths[j]) {
+			if conds[j].IsFalse() || keys[j] == k || rx.Disjoint(&paths[i], &paths[j]) {
 				continue
 			}
 			sel = term.And(sel, term.Not(conds[j]))
@@ -141,7 +145,7 @@ func init() {
 			alts = append(alts, alt{g.cond, g.caps})
 		}
 		for _, a := range alts {
-			if !ex.feasibleWith(c.St.G, a.cond, false) {
+			if !ex.feasibleSt(c.St, a.cond, false) {
 				continue
 			}
 			ns := c.St.fork(a.cond)
